@@ -227,9 +227,9 @@ def stepFor (T : Tables) (proto : Proto) (st : DSt) (toks : List String) (impl :
         let seen := match splitTokens impl with
           | [b, nm] => if b == "true" then "Opened" else (if nm == "Opened" then "Opened?" else nm)
           | _ => "?"
-        let (mon', vs) := Mon.check c st.mon .local { st := seen, armed := false, ackBytesOk := true, pool := [], out := [] }
+        let (mon', vs) := Mon.check c st.mon .local { st := seen, armed := false, ackBytesOk := true, pool := [], out := [], timerKnown := false }
         ({ st with mon := { mon' with prev := st.mon.prev } },
-         { modelObs := shown, viols := (vs.map fun (n, d) => (n, "none", d)) ++
+         { modelObs := shown, viols := vs ++
              (if seen == "Opened?" then [("opened-without-agreement", "none", "IsOpened() is false in state Opened")] else []) })
       else
       match parseEv toks st.model.lastId with
@@ -237,10 +237,21 @@ def stepFor (T : Tables) (proto : Proto) (st : DSt) (toks : List String) (impl :
       | some ev =>
         let (s', o) := Ncp.step T c st.model ev
         let (mon', vs) := match parseObs impl with
-          | some o => Mon.check c st.mon (monEv T proto toks st.mon.lastCR) o
+          | some o =>
+            -- does this packet reach a handler that stops the timer before its switch?
+            let stops := match ev with
+              | .rca _ | .rcn _ _ _ | .rcj _ _ _ | .rtr _ | .rta _ | .rcr _ _ _ | .other _ _ =>
+                let code := match ev with
+                  | .rcr _ _ _ => cCR | .rca _ => cCA | .rcn _ _ _ => cCN | .rcj _ _ _ => cCJ | .rtr _ => cTR | .rta _ => cTA
+                  | .other k _ => k | _ => 0
+                match T.dispatch.lookup code with
+                | some h => (T.pre h).contains .stopTimer
+                | none => false
+              | _ => false
+            Mon.check c st.mon (monEv T proto toks st.mon.lastCR) { o with handlerStops := stops }
           | none => (st.mon, [])
         ({ st with model := s', mon := mon' },
-         { modelObs := showObs s' o, viols := vs.map fun (n, d) => (n, "none", d) })
+         { modelObs := showObs s' o, viols := vs })
 
 def lcp : Component :=
   { σ := DSt, init := {}, step := stepFor Bng.Gen.FsmLcp.tables .lcp }
